@@ -1728,6 +1728,36 @@ def shard(arg):
     return res
 
 
+def oracle_shard(arg):
+    """the oracle alone (no correspondence, no model) on freshly generated templates of both
+    generators: the fall-back budget of the failing-input search"""
+    import random
+    seed, idx, n = arg
+    rng = random.Random('%s/%s/C19/search' % (seed, idx))
+    res = Result()
+    for c in gen_cases(rng, n):
+        res.evaluations += 1
+        f = oracle_case(c)
+        if f:
+            res.failures.append(f)
+    for _ in range(max(1, n // 4)):
+        c = G.gen_rare_case(rng)
+        try:
+            MarkupTemplateCheck(c)
+        except Exception:  # noqa
+            continue
+        for checks in (['identity', 'lookups'], ['identity']):
+            pc = project(dict(c, cat='id', catseed=0, checks=checks))
+            if pc is not None:
+                break
+        if pc is not None and valid_case(pc):
+            res.evaluations += 1
+            f = oracle_case(pc)
+            if f:
+                res.failures.append(f)
+    return res
+
+
 def run(ctx):
     nsh = 16
     per = ctx.n(200, 4000)
@@ -1786,7 +1816,7 @@ def search(ctx, res, broken):
             return found
     if found:
         return found
-    for r in pmap('harness.props.c19', 'shard', [(ctx.seed + 1000 + i, i, 600) for i in range(16)]):
+    for r in pmap('harness.props.c19', 'oracle_shard', [(ctx.seed + 1000 + i, i, 600) for i in range(16)]):
         found.extend(f for f in r.failures if not f.get('what', '').startswith('the reference template renders'))
     return found
 
